@@ -26,7 +26,7 @@ META = {
                   "for every number of objectives, direction vector and value (incl. +-inf), with antisymmetry, irreflexivity/twins and transitivity; "
                   "the model is tied to /repo on every run by exact differential correspondence (floats shipped as m*2^e, compared in Coq by vm_compute) "
                   "and an independent oracle of the English definition on the real code.",
-    "level_note": "Trusted: Coq kernel + VM; the harness (literal printer, shard runner); the hand-written model is tied to the code only on the sampled/exhaustive "
+    "level_note": "Tie/T02.v also states specification, antisymmetry, irreflexivity and transitivity about the ParetoDominance.compare GENERATED from the source text (tie_c02_generated_*). Trusted: Coq kernel + VM; the harness (literal printer, shard runner); the hand-written model is tied to the code only on the sampled/exhaustive "
                   "inputs of the correspondence (exhaustive over a 5-value pool for <=2 objectives, random beyond). NaN objectives are outside the property. "
                   "No axioms (all theorems closed under the global context).",
     "technique": "Coq proof over an abstract strict weak order + exact model/implementation correspondence (vm_compute)",
